@@ -41,6 +41,7 @@ def required_cells(tier):
            "modes": 2, "modes:lindblad": 1, "custom_j": 1,
            "long-times": 3, "subdiv_limit:small": 6,
            "bath-from-scanned-correlations-object": 3,
+           "loose-tolerance-preview-on-same-bath": 10,
            "initial-state:non-contiguous": 10, "pt-route:file": 2, "pt-route:auto-file": 2,
            "pt-route:reimport-file": 2, "pt-route:file+reopen-simple": 2,
            "pt-route:file-or-import&rotated": 4}
@@ -279,6 +280,13 @@ def run_commuting(case):
         if scanned:
             _run_lib("tempo", system, hot_bath, rho0, start, dt, nsteps,
                      params, g["unique"], "memory")
+        preview = bool(case["idx"] % 5 == 3 and not scanned)
+        if preview:
+            # a quick look with a loose tolerance first, on the same bath
+            # object and the same grid, then the computation proper
+            _run_lib("tempo", system, bath, rho0, start, dt, nsteps,
+                     oqupy.TempoParameters(**dict(kw, epsrel=1e-2)),
+                     g["unique"], "memory")
         if case["idx"] % 13 == 5:
             # the System object was used with another time step before
             oqupy.compute_dynamics(system, rho0, dt=2.5 * dt, num_steps=1,
@@ -356,6 +364,8 @@ def run_commuting(case):
         cells.append("subdiv_limit:small")
     if scanned:
         cells.append("bath-from-scanned-correlations-object")
+    if preview:
+        cells.append("loose-tolerance-preview-on-same-bath")
     if lay is not None:
         cells.append("initial-state:non-contiguous")
     if route != "memory":
